@@ -99,6 +99,62 @@ def const_text(op):
 
 
 
+def _digit_pred_fn(ctx, b, point):
+    """the fn value used at `point` is u8/char::is_ascii_digit, or a closure that just forwards to it"""
+    blk = b.points[point][0]
+    for (p, fj) in b.fn_values:
+        if not (b.pstart[blk] <= p <= point):
+            continue
+        if 'is_ascii_digit' in strip_crate(fj.get('name', '')):
+            return True
+        node = fj.get('node')
+        cb = ctx.f.bodies.get(node) if node is not None and not b.poly else None
+        if cb is not None and cb.is_closure:
+            ex = cb.exits()
+            if ex and all(e['kind'] == 'forward' and e.get('call') is not None and 'is_ascii_digit' in e['call'].name for e in ex):
+                return True
+    return False
+
+
+def digit_gate_edges(ctx, b):
+    """Edges of the parser body on which every byte of the candidate number is known to be an ASCII digit:
+    the true edge of `iter.all(is_ascii_digit)` (fn item or forwarding closure), or the exhausted edge of an
+    explicit loop that leaves for good at the first non-digit."""
+    out = []
+    for (bi, c, te, fe, cs) in b.switches_on_call(lambda c: 'Iterator>::all' in c.name):
+        if _digit_pred_fn(ctx, b, cs.point):
+            out.append(te)
+    for L in b.loops():
+        nxt = [cs for cs in b.calls if cs.block in L['blocks'] and re.search(r'Iterator>::next$', cs.name) and re.search(r'str::Bytes|str::Chars|slice::Iter<\'_, u8>|iter::Copied<std::slice::Iter<\'_, u8>>', cs.name)]
+        dig = [(bi, c, te, fe, cs) for (bi, c, te, fe, cs) in b.switches_on_call(lambda c: 'is_ascii_digit' in c.name) if cs.block in L['blocks']]
+        if not nxt or not dig:
+            continue
+        for n_ in nxt:
+            dl = n_.dest_local()
+            if dl is None:
+                continue
+            known = alias_paths(b, dl)
+            for (bj, pl, adt, edges) in b.discr_switches():
+                if place_path(known, pl) == [()] and 'Some' in edges and 'None' in edges:
+                    # every way round the loop passes the true edge of the digit test; the false edge never comes back
+                    round_without = n_.point in b.reach([edges['Some'][1]], avoid_edges=[d[2] for d in dig])
+                    false_back = any(n_.point in b.reach([d[3][1]]) for d in dig)
+                    if not round_without and not false_back:
+                        out.append(('loop', edges['None'], [d[3] for d in dig]))
+    return out
+
+
+def digit_gate_holds(ctx, b, tgt):
+    for g in digit_gate_edges(ctx, b):
+        if isinstance(g, tuple) and g and g[0] == 'loop':
+            _k, none_edge, false_edges = g
+            if b.edge_dominates(none_edge, tgt) and not any(tgt in b.reach([fe[1]]) for fe in false_edges):
+                return True
+        elif b.edge_dominates(g, tgt):
+            return True
+    return False
+
+
 def parser_facts(ctx, b):
     """What the file-name parser checks, recognising the equivalent idioms:
        prefix: starts_with(P) | strip_prefix(P) | <prefix slice> == P ; digits start: [I..] | split_at(I) | strip_prefix."""
@@ -199,7 +255,7 @@ def fs2(ctx):
     fl = flow_of(b)
     pf = parser_facts(ctx, b)
     L, Pp, I = pf['L'], pf['P'], pf['I']
-    digits = any('Iterator>::all' in cs.name and any('is_ascii_digit' in strip_crate(fj.get('name', '')) for (p, fj) in b.fn_values if p == cs.point) for cs in b.calls)
+    digits = bool(digit_gate_edges(ctx, b))
     parse_ty = None
     for cs in b.calls:
         m = re.match(r'^core::str::<impl str>::parse::<(\w+)>$', cs.name)
@@ -295,7 +351,7 @@ def fs4(ctx):
                             g_len = True
     pf = parser_facts(ctx, b)
     g_pre = any(b.edge_dominates(e, tgt) for e in pf['prefix_edges'])
-    g_dig = any(b.edge_dominates(te, tgt) for (bi, c, te, fe, cs) in b.switches_on_call(lambda c: 'Iterator>::all' in c.name and any('is_ascii_digit' in fj.get('name', '') for (p, fj) in b.fn_values if p == c.point)))
+    g_dig = digit_gate_holds(ctx, b, tgt)
     # the digit test covers the same slice that is parsed
     ctx.check(g_len, 'gate:length', b.span, 'parse dominated by `len == L`', 'the parser accepts names of any length')
     ctx.check(g_pre, 'gate:prefix', b.span, 'parse dominated by starts_with(prefix)', 'the parser no longer requires the WAL prefix')
